@@ -21,6 +21,8 @@ impl Plugin for LinkConditionerPlugin {
 pub(super) struct LinkConditioner {
     rng: Rng,
     heap: BinaryHeap<TimedMessage>,
+    /// Number of inserted messages, used to preserve insertion order for equal timestamps.
+    inserted: u64,
 }
 
 impl LinkConditioner {
@@ -53,9 +55,11 @@ impl LinkConditioner {
 
         self.heap.push(TimedMessage {
             timestamp,
+            index: self.inserted,
             channel_id,
             message,
         });
+        self.inserted += 1;
     }
 
     pub(super) fn pop(&mut self, now: Instant) -> Option<(u8, Bytes)> {
@@ -71,13 +75,18 @@ impl LinkConditioner {
 #[derive(Clone, Eq, PartialEq)]
 struct TimedMessage {
     timestamp: Instant,
+    /// Insertion index, breaks ties between messages with equal timestamps.
+    index: u64,
     channel_id: u8,
     message: Bytes,
 }
 
 impl Ord for TimedMessage {
     fn cmp(&self, other: &TimedMessage) -> Ordering {
-        other.timestamp.cmp(&self.timestamp)
+        other
+            .timestamp
+            .cmp(&self.timestamp)
+            .then_with(|| other.index.cmp(&self.index))
     }
 }
 
